@@ -134,11 +134,13 @@ class watchdog:
 
     def __enter__(self):
         self.old = signal.signal(signal.SIGALRM, self._fire)
-        signal.alarm(self.seconds)
+        # fires at `seconds` and then every second again: a CaseTimeout raised
+        # inside a __del__ or a bare except is swallowed, the next one is not
+        signal.setitimer(signal.ITIMER_REAL, self.seconds, 1.0)
         return self
 
     def __exit__(self, *a):
-        signal.alarm(0)
+        signal.setitimer(signal.ITIMER_REAL, 0)
         signal.signal(signal.SIGALRM, self.old)
         return False
 
